@@ -100,3 +100,12 @@ Proof.
   apply in_map_iff. exists (Z.to_nat o). split; [lia|].
   apply in_seq. lia.
 Qed.
+
+(* (h1) from a bound on the line lengths *)
+Lemma short_lines_give_h1 H A c :
+  0 < H -> 0 < A ->
+  (forall o, 0 <= o <= lenZ c -> line_len c o <= (A - 1) * H) ->
+  all_within_budget H A c.
+Proof.
+  intros HH HA Hl o Ho. apply short_line_within_budget; auto.
+Qed.
